@@ -5,6 +5,7 @@ NAME="$1"; shift
 cd /verif
 git -C /repo diff --quiet || { echo "/repo has uncommitted changes"; exit 2; }
 git -C /repo apply "/verif/seeded/$NAME/patch.diff" || { echo "$NAME: patch does not apply"; exit 2; }
+export VERIF_NO_EVIDENCE=1
 for ID in "$@"; do
   start=$(date +%s)
   out=$(./check "$ID" --tier "${TIER:-quick}" 2>&1); rc=$?
